@@ -208,6 +208,53 @@ func (s *session) simplify(r *run, res, a string) {
 	s.emit(r, fmt.Sprintf("simplify %s %s", res, a))
 }
 
+// simplifyDirected: the decisive inputs of simplifySummary's candidate filter, for every registered LOAD-kind
+// subnode relation (p, c): {p -sub-> c} with (st p, st c) in {(1,2), (2,2), (1,1)} — the Leaked subnode is kept
+// while its parent is only Escaped and removed when both are Leaked (Props/C15Simplify.simplify_not_monotone_removal,
+// replayed here on the real code) — and the same with an internal edge into c from an Escaped third node.
+func (s *session) simplifyDirected(r *run, kinds []int, subs []gen.SubRel) {
+	done := 0
+	for _, sr := range subs {
+		if kinds[sr.Parent] != 2 || done >= 2 {
+			continue
+		}
+		done++
+		for vi, st := range [][2]int{{1, 2}, {2, 2}, {1, 1}} {
+			for _, extra := range []bool{false, true} {
+				eg := gen.NewEG(kinds)
+				eg.Dom[sr.Parent], eg.Dom[sr.Child] = true, true
+				eg.St[sr.Parent], eg.St[sr.Child] = st[0], st[1]
+				eg.Fl[sr.Parent][sr.Child] = 4
+				if extra {
+					x := -1
+					for c := 0; c < eg.N; c++ {
+						if c != sr.Parent && c != sr.Child && gen.Intrinsic(kinds[c]) <= st[1] {
+							x = c
+							break
+						}
+					}
+					if x < 0 {
+						continue
+					}
+					eg.Dom[x] = true
+					eg.St[x] = gen.Intrinsic(kinds[x])
+					eg.Fl[x][sr.Child] = 1
+				}
+				name := fmt.Sprintf("sd%d_%d_%v", done, vi, extra)
+				s.def(r, name, eg)
+				s.simplify(r, name+"s", name)
+				s.show(r, name+"s")
+				s.le(r, name+"s", name, "simplifySummary shrinking")
+				after := 0
+				if g2, ok := egOf(s.u, s.regs[name+"s"]); ok && g2 != nil {
+					after = g2.Nodes()
+				}
+				r.rep.Count(fmt.Sprintf("simplifyDirected:st=%d%d,internal-in=%v,removed=%d", st[0], st[1], extra, eg.Nodes()-after))
+			}
+		}
+	}
+}
+
 func (s *session) callUnknown(r *run, res, a string, args []int) {
 	g := s.regs[a].Clone()
 	s.u.CallUnknown(g, args)
@@ -571,6 +618,7 @@ func partA(rep *lib.Report) {
 		s.def(r, "w", w)
 		s.battery(r, rnd, func(x int) bool { return g.Dom[x] })
 		s.battery2(r, rnd, g, w, subs)
+		s.simplifyDirected(r, kinds, subs)
 		rep.Count(fmt.Sprintf("A:subnode-relations<=%d", bucket(len(subs))))
 		key := g.Line("g") + h.Line("h") + k.Line("k") + w.Line("w")
 		if g.Edges()+h.Edges() == 0 {
